@@ -1,11 +1,87 @@
 """C20 - values and types are immutable and safe to share between goroutines."""
+import json, os, subprocess
 from checks.opsfam import run_ops, replay_ops, ALL_OPS
 
 def run(c, a):
-    c.rule_text = "WIP"
+    c.rule_text = ("(1) Sessions (Session.tla): a store of live values and a history of steps that call accessors and then mutate the Go data they returned "
+                   "(AsBigFloat, Marks, Unmark, UnmarkDeep(WithPaths), AsValueSlice/Map/Set, Range bounds, walk paths), re-use Go slices / maps / value "
+                   "sets / refinement builders after handing them to a constructor, copy-and-mutate value sets, refine twice, and derive values; TLC "
+                   "emits random histories (simulation), the harness replays them and re-projects EVERY live value after every step; the trace spec checks "
+                   "the action property Immutable (no existing value changed) on each step. (2) Purity: every operation call of the bounded universe is "
+                   "repeated on the same operands and across physical representations (Pure, RepInvariant), also on weakened operands. (3) Sharing between "
+                   "goroutines: the same calls are executed by 8 goroutines released together on shared operand values in a harness built with the Go race "
+                   "detector; TLC requires the concurrent results to equal the sequential result and any race report is a violation. (4) ValueSet/PathSet "
+                   "copy isolation is judged in the C03/C19 state-machine traces (rules C20.SetIsolation, C20.PathSetIsolation), re-run here. "
+                   "Non-trivial = applied mutating step / successful call.")
+    c.assumptions = ["documented ownership transfers (NumberVal's *big.Float, Tuple / Object type constructors' slices and maps, AttributeTypes results) are not mutation targets",
+                     "the race detector observes the executed pairs of operations; interleavings are not enumerated"]
     c.build_harness()
     if a.replay:
-        return replay_ops(c, c.load_replay(a.replay))
+        rec = c.load_replay(a.replay)
+        e = rec["event"]
+        if e.get("ev") == "sstep":
+            vec = c.path("replay.ndjson")
+            open(vec, "w").write(json.dumps(rec["ctx"]) + "\n")
+            out = c.path("replay-ev.ndjson")
+            c.harness("session", out, inp=vec)
+            c.trace("SessionTrace", out, nshards=1, dedupe=False, boundary=lambda l: '"ev":"sstart"' in l)
+            return
+        return replay_ops(c, rec)
+    thorough = c.tier == "thorough"
+    # (1) sessions
+    beh = c.path("sess-beh.ndjson")
+    depth = 6 if thorough else 4
+    n = c.tlc_sim("Session", "SessionSim.cfg", beh, 12000 if thorough else 3000, depth + 1, env={"VDEPTH": depth})
+    c.note("session histories", n)
+    sev = c.path("sess-ev.ndjson")
+    c.harness("session", sev, inp=beh)
+    c.sample_events(sev, 2, lambda l: '"applied":true' in l and 'mutate' in l)
+    c.trace("SessionTrace", sev, dedupe=False, boundary=lambda l: '"ev":"sstart"' in l, ctx_for=ctx_for)
+    # (2) purity
     ev = run_ops(c, "call", ALL_OPS)
-    c.sample_events(ev, 3, lambda l: '"ok":true' in l)
     c.trace("OpsTrace", ev, dedupe=False)
+    if thorough:
+        evw = run_ops(c, "weak", ["Equals", "NotEqual", "HasElement", "Index", "Length"], prop="C01")
+        c.trace("OpsTrace", evw)
+    # (3) goroutines under the race detector
+    race = c.build_harness(race=True)
+    vec = c.concat([c.path("vec-call-%s-0.ndjson" % api) for api in ALL_OPS], c.path("race-vec.ndjson"))
+    rout = c.path("race-ev.ndjson")
+    rlog = c.path("race-log")
+    res = c.harness("conc", rout, inp=vec, binpath=race, env={"GORACE": "exitcode=66 log_path=%s halt_on_error=0" % rlog}, ok_codes=(0, 66), timeout=1500)
+    logs = [f for f in os.listdir(c.work) if f.startswith("race-log")]
+    c.extra["race_reports"] = len(logs)
+    if logs:
+        outdir = os.path.join(os.environ.get("VERIF_OUT") or os.path.join(os.path.dirname(os.path.dirname(os.path.abspath(__file__))), "out"), c.pid)
+        os.makedirs(outdir, exist_ok=True)
+        dst = os.path.join(outdir, "race-report.txt")
+        with open(dst, "w") as f:
+            for lg in logs[:5]:
+                f.write(open(os.path.join(c.work, lg)).read()[:20000])
+        c.viol.append({"rule": "C20.DataRace", "event": {"ev": "race", "report": dst, "api": "goroutines"}, "module": "race detector"})
+    c.sample_events(rout, 1, lambda l: '"conc"' in l)
+    c.trace("ConcTrace", rout)
+    # (4) copy isolation of mutable helper sets
+    from checks import c03, c19
+    import importlib
+    c.note("value-set and path-set state machines")
+    sm_only(c)
+
+def sm_only(c):
+    from checks.c03 import impl_predictions, POOLS
+    import checks.c03 as c03
+    beh = c.path("vset-beh.ndjson")
+    n = c.tlc_sim("ValueSetMC", "ValueSetSim.cfg", beh, 1500, 10, env={"VDEPTH": 9})
+    POOLS["vset"] = json.loads(open(beh).readline())["pool"]
+    impl_predictions(c, beh)
+    vev = c.path("vset-ev.ndjson")
+    c.harness("vset", vev, inp=beh)
+    c.trace("VSetTrace", vev, dedupe=False, boundary=lambda l: '"ev":"vreset"' in l, ctx_for=c03.ctx_for)
+
+def ctx_for(lines, l):
+    i = l - 1
+    while i >= 0 and '"ev":"sstart"' not in lines[i]:
+        i -= 1
+    start = json.loads(lines[i])
+    steps = [json.loads(x)["step"] for x in lines[i + 1:l]]
+    return {"init": start["snap"], "steps": steps}
